@@ -3284,7 +3284,14 @@ impl WasmGenerator {
                         func.instruction(&W::I64Const(temp_addr as i64));
                     } else {
                         // Single-word return ExtFunction: standard call
-                        if let Some(import_idx) = self.resolve_ext_function(name) {
+                        if name.as_str() == "not" && args.len() == 1 {
+                            // the core library's `not` (1 for zero, 0 otherwise) has no host
+                            // import: the generic plugin bridge answered 0 for every argument
+                            self.emit_value_load_typed(&args[0].0, ValType::F64, func);
+                            func.instruction(&W::F64Const(0.0));
+                            func.instruction(&W::F64Eq);
+                            func.instruction(&W::F64ConvertI32U);
+                        } else if let Some(import_idx) = self.resolve_ext_function(name) {
                             self.emit_call_args_flattened_for_ext(name, args, func);
                             func.instruction(&W::Call(import_idx));
                         } else {
